@@ -10,6 +10,6 @@ CONSTANTS
   MaxRows = 3
   ERowReps = {1, 3, 1000}
   VRowReps = {1, 3}
-  MaxArea = 2000000
+  MaxArea = 70000
 INVARIANTS ColsAgree PendingOnlyEmpty Incremental Refines Dump
 CHECK_DEADLOCK FALSE
